@@ -951,6 +951,8 @@ func genParFacts() {
 		}
 		fmt.Fprintf(&o, "  ⟨%s, %d, %s, %s, %v, %s⟩%s\n", leanStr(c.file), c.line, leanStr(c.fn), leanStr(c.field), c.fresh, leanStr(c.how), sep)
 	}
-	o.WriteString("]\n\nend Csvq.Gen\n")
+	o.WriteString("]\n\n")
+	o.WriteString(poolAndHeaderFactsLean(p))
+	o.WriteString("end Csvq.Gen\n")
 	fmt.Print(o.String())
 }
